@@ -235,10 +235,13 @@ class InvVolAlpha(object):
 class SwitchAlpha(object):
     """A time-varying model: one weight dict up to an instant, another one afterwards (e.g. a hedge that is dropped)."""
 
-    def __init__(self, first, then, when):
-        self.first, self.then, self.when = first, then, when
+    def __init__(self, first, then, when, pause=None):
+        self.first, self.then, self.when, self.pause = first, then, when, pause
 
     def __call__(self, dt):
+        if self.pause is not None and self.pause[0] <= dt < self.pause[1]:
+            # the strategy stands aside: everything it ever named gets weight zero (the book goes to cash), then it re-enters
+            return {a: 0.0 for a in list(self.first) + list(self.then)}
         return dict(self.first if dt < self.when else self.then)
 
 
@@ -360,7 +363,8 @@ def build(cfg, world, shared=None):
     elif al['kind'] == 'single':
         alpha = SingleSignalAlphaModel(universe, signal=al.get('signal', 1.0))
     elif al['kind'] == 'switch':
-        alpha = SwitchAlpha(al['first'], al['then'], ts(al['when']))
+        alpha = SwitchAlpha(al['first'], al['then'], ts(al['when']),
+                            pause=[ts(x) for x in al['pause']] if al.get('pause') else None)
     elif al['kind'] == 'topn_mom':
         sigs['momentum'] = MomentumSignal(sig_start, sig_universe, lookbacks=[al['lookback']] + list(al.get('extra_lookbacks', [])))
         signals = SignalsCollection(sigs, sig_handler)
@@ -1195,6 +1199,11 @@ def gen_cfg(rng, alpha_kinds=('fixed',), universe_kinds=('static',), max_days=25
         then_w = {a: rng.choice([1.0, 0.25]) for a in members}
         when = d0 + dt.timedelta(days=max(3, int(ndays * 7 / 5 * rng.choice([0.3, 0.5, 0.7]))))
         cfg['alpha'] = {'kind': 'switch', 'first': first_w, 'then': then_w, 'when': '%s 00:00:00+00:00' % when.isoformat()}
+        if rng.random() < 0.5:
+            # all cash for a stretch of the run (before or after the switch), then back in at moved prices
+            p0 = d0 + dt.timedelta(days=max(2, int(ndays * 7 / 5 * rng.choice([0.15, 0.4, 0.6]))))
+            p1 = p0 + dt.timedelta(days=rng.choice([2, 8, 15, 35]))
+            cfg['alpha']['pause'] = ['%s 00:00:00+00:00' % p0.isoformat(), '%s 00:00:00+00:00' % p1.isoformat()]
         mk.pop('late', None)
     elif ak == 'single':
         cfg['alpha'] = {'kind': 'single', 'signal': rng.choice([1.0, 0.5, 2.0, 1e-9] if cfg['long_only'] else [1.0, -1.0, 0.5, 1e-9])}    # tiny but genuine weights
